@@ -3,8 +3,8 @@ CONSTANTS
   NPeers = 2
   MaxCatches = 3
   Closers = {1, 2}
-  AsIs_D8 = FALSE
+  AsIs_D8 = TRUE
   AsIs_D9 = FALSE
 SPECIFICATION GenSpec
-INVARIANTS TypeOK Bound AllClosedAfterEnd NoStuckEnd
+INVARIANTS TypeOK NoPanic
 CHECK_DEADLOCK FALSE
